@@ -143,7 +143,7 @@ Definition ex_schema : schema :=
                 (nm "I", NInterface [ (nm "s", StNamed (nm "String")) ]);
                 (nm "U", NUnion [nm "O"; nm "P"]) ];
      query := nm "Q"; mutation := None; subscription := None;
-     s_inputs := ex_inputs; s_argdefs := ex_argdefs |}.
+     s_inputs := ex_inputs; s_dt := []; s_argdefs := ex_argdefs |}.
 
 (** query ($v: Boolean!) {
       o { n } ...F l ln(k: 3)
